@@ -51,8 +51,12 @@ func (r *vd5Run) cb(tag string) ppp.Callbacks {
 				t = "*"
 			case ppp.CodeRej:
 				t = "?" + t
-				if len(data) >= 4 && int(data[2])<<8|int(data[3]) == len(data) {
-					t = fmt.Sprintf("%d-%d-%d", data[0], data[1], len(data)-4)
+				if len(data) >= 4 {
+					q := len(data)
+					if q > 1488 {
+						q = 1488
+					}
+					t = fmt.Sprintf("%d-%d-%d-%d", data[0], data[1], (int(data[2])<<8|int(data[3]))-4, q)
 				}
 			}
 			r.ev = append(r.ev, fmt.Sprintf("%s.%s.%d.%s", tag, n, id, t))
